@@ -39,6 +39,9 @@ func runC09(c *an.Ctx) {
 	r092(c)
 	r093(c, "R09.3")
 	r094(c)
+	r095(c, "R09.5")
+	registryRebuild(c, "R09.6")
+	c.Min("R09.5", 5)
 	c.Min("R09.1", 32)
 	c.Min("R09.2", 8)
 	c.Min("R09.3", 4)
@@ -512,4 +515,186 @@ func r094(c *an.Ctx) {
 			c.Check(hasSendCtx, rule, cons, s.Instr.Pos(), "select has <-ctx.Done() of the send context", "the select around the delivery has no case for the sender's context: the send timeout cannot take effect")
 		}
 	}
+}
+
+// r095: bookkeeping of the merge queue in mergeCollectionExcess. The pending
+// map and the FIFO of ids must describe the same set: an emitted change is
+// removed from both, a merged change replaces its queue entry, a cancelled
+// pair (ADD then REMOVE) disappears from both, and an entry is queued exactly
+// when it is stored.
+func r095(c *an.Ctx, rule string) {
+	outer := mustFunc(c, rule, resPkg, "", "mergeCollectionExcess")
+	if outer == nil {
+		return
+	}
+	name := "pkg/resource.mergeCollectionExcess"
+	gos := an.GoStmts(outer)
+	if len(gos) != 1 || an.GoTarget(gos[0]) == nil {
+		c.Unk(rule, name+"|goroutine", outer.Pos(), "goroutine not found")
+		return
+	}
+	g := an.GoTarget(gos[0])
+	isMapDelete := func(in ssa.Instruction) bool {
+		cl, ok := in.(*ssa.Call)
+		return ok && an.CalleeName(cl) == "builtin delete" && strings.Contains(cl.Call.Args[0].Type().String(), "CollectionChange")
+	}
+	isMapStore := func(in ssa.Instruction) bool {
+		mu, ok := in.(*ssa.MapUpdate)
+		return ok && strings.Contains(mu.Map.Type().String(), "CollectionChange")
+	}
+	isRemove := func(in ssa.Instruction) bool { return an.IsCallTo(in, "(*container/list.List).Remove") }
+	isPush := func(in ssa.Instruction) bool { return an.IsCallTo(in, "(*container/list.List).PushBack") }
+	isComm := func(in ssa.Instruction) bool {
+		switch x := in.(type) {
+		case *ssa.Select:
+			return true
+		case *ssa.UnOp:
+			return x.Op == token.ARROW
+		}
+		return false
+	}
+	// (a) after a successful send the front entry leaves both structures
+	var sel *ssa.Select
+	sendIdx := -1
+	an.Instrs(g, func(in ssa.Instruction) {
+		if s, ok := in.(*ssa.Select); ok {
+			for i, st := range s.States {
+				if st.Dir == types.SendOnly {
+					sel, sendIdx = s, i
+				}
+			}
+		}
+	})
+	if sel == nil {
+		c.Unk(rule, name+"|select", g.Pos(), "no select with a send case found")
+		return
+	}
+	var sendBody *ssa.BasicBlock
+	for _, u := range an.Referrers(sel) {
+		ex, ok := u.(*ssa.Extract)
+		if !ok || ex.Index != 0 {
+			continue
+		}
+		for _, u2 := range an.Referrers(ex) {
+			if bo, ok := u2.(*ssa.BinOp); ok && bo.Op == token.EQL {
+				if k, isC := an.ConstInt(bo.Y); isC && int(k) == sendIdx {
+					for _, u3 := range an.Referrers(bo) {
+						if iff, ok := u3.(*ssa.If); ok {
+							sendBody = iff.Block().Succs[0]
+						}
+					}
+				}
+			}
+		}
+	}
+	if sendBody == nil {
+		c.Unk(rule, name+"|send case", sel.Pos(), "body of the send case not found")
+		return
+	}
+	t1, _ := an.PathQuery{Target: isComm, Avoid: isMapDelete}.FromBlock(sendBody)
+	t2, _ := an.PathQuery{Target: isComm, Avoid: isRemove}.FromBlock(sendBody)
+	c.Check(t1 == nil, rule, name+"|emitted change leaves the pending map", sel.Pos(), "delete(messages, id) on every path after the send",
+		"after a change has been handed to the subscriber its entry stays in the pending map: the next change of that id is merged with history the subscriber already consumed (e.g. a delivered ADD followed by a REMOVE cancels out and the REMOVE is lost)")
+	c.Check(t2 == nil, rule, name+"|emitted change leaves the queue", sel.Pos(), "queue.Remove on every path after the send", "after a change has been sent its id stays queued: it is sent again")
+	// (b) stored <=> queued
+	okPush, okStore := true, true
+	nPush := 0
+	an.Instrs(g, func(in ssa.Instruction) {
+		if isPush(in) {
+			nPush++
+			// some map store must reach this push without communication in between, on every path: search backwards by
+			// checking that no path from the last communication reaches the push avoiding map stores
+			found := false
+			an.Instrs(g, func(m ssa.Instruction) {
+				if isMapStore(m) && an.Dominates(m, in) {
+					t, _ := an.PathQuery{Target: func(x ssa.Instruction) bool { return x == in }, Avoid: isComm}.From(g, m)
+					if t != nil {
+						found = true
+					}
+				}
+			})
+			if !found {
+				okPush = false
+			}
+		}
+		if isMapStore(in) {
+			t, _ := an.PathQuery{Target: isComm, Avoid: isPush}.From(g, in)
+			if t != nil {
+				okStore = false
+			}
+		}
+	})
+	c.Check(okPush && okStore && nPush > 0, rule, name+"|an id is queued exactly when its change is stored", g.Pos(), fmt.Sprintf("%d PushBack site(s)", nPush),
+		"messages[id] = … and queue.PushBack(id) do not come in pairs: a stored change is never emitted, or a queued id has no change")
+	// (c) a cancelled pair disappears, (d) a merged change replaces its queue entry
+	for _, cl := range an.CallsTo(g, an.ModulePath+"/pkg/resource.mergeChanges") {
+		for _, u := range an.Referrers(cl.(*ssa.Call)) {
+			ex, ok := u.(*ssa.Extract)
+			if !ok || ex.Index != 1 {
+				continue
+			}
+			checked := false
+			for _, v := range flowsToIf(ex) {
+				checked = true
+				dropTarget := v.Block().Succs[1]
+				if u, isNot := v.Cond.(*ssa.UnOp); isNot && u.Op == token.NOT {
+					dropTarget = v.Block().Succs[0]
+				}
+				t, _ := an.PathQuery{Target: isComm, Avoid: isMapDelete}.FromBlock(dropTarget)
+				c.Check(t == nil, rule, name+"|a cancelled pair leaves the pending map", v.Pos(), "", "when mergeChanges says 'do not send' the pending entry is kept: the cancelled ADD is still delivered")
+				tp, _ := an.PathQuery{Target: isPush, Avoid: isComm}.FromBlock(dropTarget)
+				c.Check(tp == nil, rule, name+"|a cancelled pair is not queued", v.Pos(), "", "a cancelled pair is queued again")
+			}
+			if !checked {
+				c.Bad(rule, name+"|a cancelled pair leaves the pending map", cl.Pos(), "the send verdict of mergeChanges is ignored")
+			}
+		}
+		// (d): between the merge and the PushBack the old queue entry can be removed (the search loop for the
+		// entry may in principle find nothing, so only the presence of the removal on some path is required)
+		found := false
+		an.Instrs(g, func(in ssa.Instruction) {
+			if !isRemove(in) {
+				return
+			}
+			t1, _ := an.PathQuery{Target: func(x ssa.Instruction) bool { return x == in }, Avoid: isComm}.From(g, cl)
+			t2, _ := an.PathQuery{Target: isPush, Avoid: isComm}.From(g, in)
+			if t1 != nil && t2 != nil {
+				found = true
+			}
+		})
+		c.Check(found, rule, name+"|a merged change replaces its queue entry", cl.Pos(), "queue.Remove lies between the merge and PushBack", "after merging with a pending change the id is queued a second time and its old queue entry is never removed")
+	}
+}
+
+// flowsToIf returns the If instructions whose condition is v, !v, or a local copy of v.
+func flowsToIf(v ssa.Value) []*ssa.If {
+	var out []*ssa.If
+	seen := map[ssa.Value]bool{}
+	var walk func(x ssa.Value)
+	walk = func(x ssa.Value) {
+		if seen[x] {
+			return
+		}
+		seen[x] = true
+		for _, u := range an.Referrers(x) {
+			switch y := u.(type) {
+			case *ssa.If:
+				out = append(out, y)
+			case *ssa.UnOp:
+				if y.Op == token.NOT {
+					walk(y)
+				}
+			case *ssa.Phi:
+				walk(y)
+			case *ssa.Store:
+				if cell := an.CellOf(y.Addr); cell != nil {
+					for _, l := range an.LoadsOf(cell) {
+						walk(l)
+					}
+				}
+			}
+		}
+	}
+	walk(v)
+	return out
 }
